@@ -217,9 +217,13 @@ def check_setup_histories(seed, n_cases, n_max=4, length=5):
         is_async = rnd.random() < 0.3
         hist = []
         for _ in range(length):
-            op = rnd.choice(["call", "exec", "setup", "setup_sel", "deepcopy"])
+            op = rnd.choice(["call", "exec", "setup", "setup_sel", "deepcopy", "exec_setup_root", "setup_excl"])
             if op in ("exec", "setup_sel"):
                 hist.append((op, rnd.sample(w.order, rnd.randint(1, min(2, len(w.order))))))
+            elif op == "exec_setup_root":
+                hist.append((op, [rnd.choice(roots(w))]))
+            elif op == "setup_excl":
+                hist.append((op, [rnd.choice(w.order)]))
             else:
                 hist.append((op, None))
         v = one_setup_history(w, hist, is_async)
@@ -267,6 +271,17 @@ def one_setup_history(w, hist, is_async):
             need = anc_closure(w, arg) & sids
             if set(w.calls) - need:
                 v.append(f"setup(target_nodes={arg}) ran {sorted(set(w.calls) - need)} beyond the needed setup nodes {sorted(need)}")
+        elif op == "exec_setup_root":
+            # the setup() of an executor restricted by root_nodes runs only setup nodes of the executor's selection
+            out = run(lambda: aw(dag.executor(root_nodes=arg).setup()))
+            sel = desc_closure(w, arg)
+            if set(w.calls) - (sel & sids):
+                v.append(f"executor(root_nodes={arg}).setup() ran {sorted(set(w.calls) - (sel & sids))}, outside the setup nodes {sorted(sel & sids)} of its selection")
+        elif op == "setup_excl":
+            out = run(lambda: aw(dag.setup(exclude_nodes=arg)))
+            cut = desc_closure(w, arg)
+            if set(w.calls) - (sids - cut):
+                v.append(f"setup(exclude_nodes={arg}) ran {sorted(set(w.calls) - (sids - cut))} beyond the setup nodes {sorted(sids - cut)} of its selection")
         elif op == "deepcopy":
             already = {n for (i, n), c in count.items() if i == inst["cur"] and c}
             dag = copy.deepcopy(dag)
